@@ -43,6 +43,8 @@ type Chain struct {
 	subs     []*Sub
 	// GetHook, if set, runs at the start of every GetByHeight (seam / failure injection).
 	GetHook func(ctx context.Context, height uint64) error
+	// AfterDelete, if set, is called after a header left the store at the tail.
+	AfterDelete func(height uint64)
 	// RangeHook may truncate the result of GetRangeByHeight (legal-but-unusual prefix answers).
 	RangeHook func(from, to uint64, n int) int
 }
@@ -104,6 +106,9 @@ func (c *Chain) AdvanceTail(ctx context.Context, newTail uint64) error {
 		delete(c.hdrs, t)
 		c.tail = t + 1
 		c.mu.Unlock()
+		if c.AfterDelete != nil {
+			c.AfterDelete(t)
+		}
 	}
 }
 
